@@ -8,7 +8,10 @@ from manifest_text import TEXT, NOT_APPLICABLE, PENDING
 
 ENGINE = {"S": "S-controlled", "N": "N-whole-system"}
 checks = []
+import re
 for pid in sorted(CHECKS):
+    if not re.match(r'^C[0-9]+$', pid):
+        continue
     t = TEXT[pid]
     checks.append({
         "property_id": pid,
@@ -34,9 +37,9 @@ m = {
         "add_only": True,
     },
     "engines": [
-        {"name": "S-controlled", "path": "/verif/sim/simrt", "serves_properties": sorted(p for p in CHECKS if TEXT[p]["engine"] == "S"),
+        {"name": "S-controlled", "path": "/verif/sim/simrt", "serves_properties": sorted(p for p in CHECKS if p in TEXT and TEXT[p]["engine"] == "S"),
          "kind_free_text": "deterministic simulation: instrumented copies of the repository's concurrent components run as registered tasks inside a testing/synctest bubble (fake clock); a seeded scheduler releases exactly one task between two hooks, all I/O, peers and faults come from one choice tape; violations are shrunk and replayed from the tape"},
-        {"name": "N-whole-system", "path": "/verif/sim/simnet", "serves_properties": sorted(p for p in CHECKS if TEXT[p]["engine"] == "N"),
+        {"name": "N-whole-system", "path": "/verif/sim/simnet", "serves_properties": sorted(p for p in CHECKS if p in TEXT and TEXT[p]["engine"] == "N"),
          "kind_free_text": "deterministic simulation of the whole system (runner + four reference peers + protocol stacks) in one process over a simulated network and the fake clock; environment seeded, goroutine schedule inside third-party stacks left to the Go scheduler (GOMAXPROCS=1)"},
     ],
     "checks": checks,
